@@ -10,6 +10,7 @@ import (
 	"strings"
 	"sync"
 	"testing/iotest"
+	"time"
 
 	fhttp "github.com/synnaxlabs/freighter/http"
 	"github.com/synnaxlabs/synnax/pkg/distribution/channel"
@@ -146,6 +147,9 @@ func (sc staticCase) run(h *harness.H) (out []rtOutcome) {
 	}
 	// all encodings are decoded after the last Encode: the returned slices must not alias
 	for i, f := range sc.Frames {
+		if _, over := wireLayoutClaim(encs[i], sc.Spec, 0); over != "" {
+			return append(out, rtOutcome{Class: "overclaiming-encoding", Flags: encs[i][0], What: fmt.Sprintf("frame %d (flags %s): the encoding is not decodable: %s", i, flagString(encs[i][0]), over)})
+		}
 		fr, err := decodeWith(dec, encs[i], sc.Stream)
 		if err != nil {
 			return append(out, rtOutcome{Class: "decode-error", Flags: encs[i][0], What: fmt.Sprintf("frame %d: Decode of a fresh encoding failed: %v", i, err)})
@@ -408,7 +412,11 @@ func genDynCase(r *prng.R, w *world) dynCase {
 			spec := w.specOf(sets[e-1])
 			f, sh := genFrame(r, spec, false)
 			dc.Steps = append(dc.Steps, dynStep{Op: "frame", Series: f, Shape: sh.String(), Stream: r.Chance(1, 3)})
-			pendE, pendD = 0, 0
+			// the response envelopes carry an empty frame as JSON and never reach the
+			// binary codec, which is what drains the update queue
+			if len(f) > 0 || dc.Wrap == "" || dc.Wrap == "writer-request" {
+				pendE, pendD = 0, 0
+			}
 		}
 	}
 	return dc
@@ -496,6 +504,15 @@ func (dc dynCase) run(w *world) (out []rtOutcome, apartSeen int) {
 				flags = b[1]
 			} else {
 				binaryPath = false // JSON fallback for empty frames
+			}
+			if binaryPath {
+				base := 0
+				if dc.Wrap != "" {
+					base = 1
+				}
+				if _, over := wireLayoutClaim(b, spec, base); over != "" {
+					return append(out, rtOutcome{Class: "overclaiming-encoding", Flags: flags, What: fmt.Sprintf("step %d (flags %s): the encoding is not decodable: %s", si, flagString(flags), over)}), apartSeen
+				}
 			}
 			switch dc.Wrap {
 			case "":
@@ -598,7 +615,23 @@ func layerDynamic(h *harness.H) {
 		r := h.Rand("dynamic", c)
 		dc := genDynCase(r, w)
 		h.Eval()
-		out, apart := dc.run(w)
+		var (
+			out   []rtOutcome
+			apart int
+			done  = make(chan struct{})
+		)
+		go func() {
+			defer close(done)
+			out, apart = dc.run(w)
+		}()
+		select {
+		case <-done:
+		case <-time.After(2 * time.Minute):
+			// watchdog only (Codec.Update blocks when 50 updates are queued and nothing
+			// encodes or decodes): never a verdict
+			h.Inconclusive("dynamic-case-stalled")
+			return
+		}
 		h.Seen("updates_apart", fmt.Sprint(apart))
 		fi := 0
 		for _, st := range dc.Steps {
